@@ -1,6 +1,6 @@
 # C08 spec (see tools/props.py)
 SPEC = {
-        "ready": False,
+        "ready": True,
         "sources": ["c08.cpp"], "lib": [],
         "technique": "exhaustive exponent sweeps (every exponent of float and double, every slot, graded relative exponents, boundary mantissas, sign patterns) of Vec2/3/4 length()/normalize family against sqrtl of the long-double sum of squares",
         "level_text": "Every tuple of a stated finite alphabet - leading component +-m*2^e for every exponent e of the type (float -149..63, double -1074..511) in every slot, other components at relative exponents {0,-1,-2,-12,-24,-25,-53,-54,-inf}, mantissas {1,1+ulp,1.5,2-ulp}, sign patterns including -0; thorough adds the complete float exponent square and cube - is run through the real length(), length2(), normalize(), normalized() and their Exc/NonNull forms for Vec2/Vec3/Vec4 of float and double and compared with the definition evaluated in long double under a-priori ulp bounds; the alphabet straddles the 2*min switch-over of each of the three hand-written copies at every exponent.",
